@@ -10,7 +10,11 @@
      ver       index version offered;  hwm0  high-water mark already on disk
      fetch     "ok" | "http500" | "connerr" | "oversize" | "midbody" (the body breaks off with an
                error) | "short" (the body ends early without an error)            (artifact fetch)
-     cache     "none" | "hit" | "corrupt"                              (local download cache)
+     cache     "none" | "hit" | "corrupt" | "tampered"                 (local download cache: no entry, an intact one, one
+                                                                         whose bytes rotted to another length, one replaced by
+                                                                         a well-formed archive of the same length with another
+                                                                         payload - only an intact entry is used, anything else
+                                                                         is a miss and the artifact is fetched)
      digest    "match" | "mismatch" | "empty"                          (declared vs received sha256)
      unsigned  operator asked for --allow-unsigned;  pol  the policy context
      verifier  "accept" | "refuse" | "nosig"   (ArtifactVerifier outcome - an INPUT, C19 does not
